@@ -40,8 +40,12 @@ def verdict(r):
 def run(chk: core.Check) -> int:
     t = ImportTable(core.REPO)
     core.write_if_changed(core.LEAN / "CddVerif" / "Gen" / "Imports.lean", t.to_lean())
-    theorems = ["C18.single_ok", "C18.single_ok_each", "C18.table_nonempty"]
-    module = "CddVerif.Properties.C18"
+    # C18Hist (imports C18): the lift from single imports to EVERY import history of any length (monotone simulation, Proofs/ImportsMono.lean) under a
+    # decidable static condition on the regenerated table (static_ok, kernel evaluation)
+    theorems = ["C18.single_ok", "C18.single_ok_each", "C18.table_nonempty", "C18.static_ok", "C18.histories_ok_generic", "C18.all_histories_ok", "C18.all_histories_done",
+                "C18.load_mono_table", "C18.allSingles_not_enough"]
+    module = "CddVerif.Properties.C18Hist"
+    chk.lean(module, theorems, checker=False)
     if not chk.quick:
         # all pairs: generated chunked theorems (kernel evaluation), a separate lake library built by this tier only
         pdir = core.LEAN / "CddVerifPairs"
@@ -51,9 +55,7 @@ def run(chk: core.Check) -> int:
         for old in pdir.glob("*.lean"):
             if old.name not in files:
                 old.unlink()
-        module = "CddVerifPairs.All"
-        theorems = theorems + ["C18.Pairs.pair_ok_all"]
-    chk.lean(module, theorems, checker=False)
+        chk.lean("CddVerifPairs.All", ["C18.Pairs.pair_ok_all"], checker=False)
     chk.trusted_base += [
         "translator harness/translators/imports.py (Python ast walk → event table; version-flag conditions folded for the running interpreter); table regenerated on every run: %d modules (%d public), %d names, %d events"
         % (len(t.mods), len(t.public), len(t.names), sum(len(v) for v in t.events.values())),
@@ -67,6 +69,9 @@ def run(chk: core.Check) -> int:
     all_pairs = [(a, b) for a in range(n) for b in range(a + 1, n)]
     pairs = all_pairs if not chk.quick else rng.sample(all_pairs, 40)
     seqs = [[m] for m in t.public] + [[t.public[a], t.public[b]] for a, b in pairs] + [[t.public[b], t.public[a]] for a, b in pairs]
+    # longer histories (3..8 modules, repetitions allowed): what C18.all_histories_ok claims for every length
+    n_hist = 24 if chk.quick else 400
+    seqs += [[rng.choice(t.public) for _ in range(rng.randint(3, 8))] for _ in range(n_hist)]
     # real runs in fresh interpreters
     with tempfile.TemporaryDirectory(prefix="c18_") as cwd, cf.ThreadPoolExecutor(core.NCPU) as ex:
         real = list(ex.map(lambda s: real_import(s, cwd), seqs))
@@ -133,8 +138,9 @@ def run(chk: core.Check) -> int:
                "correspondence", n_dis == 0 and model is not None, "%d disagreements" % n_dis)
     chk.coverage["single_imports"] = n
     chk.coverage["ordered_pairs_run"] = 2 * len(pairs)
+    chk.coverage["longer_histories_run"] = n_hist
     chk.coverage["exhaustive"] = not chk.quick
-    return chk.finish("fresh-interpreter imports: every public module first (exhaustive), ordered pairs both ways (%s); every case is distinct and non-trivial (a real interpreter start)"
+    return chk.finish("fresh-interpreter imports: every public module first (exhaustive), ordered pairs both ways (%s), random histories of 3-8 modules; every case is distinct and non-trivial (a real interpreter start)"
                       % ("all" if not chk.quick else "40 sampled unordered pairs"))
 
 
